@@ -291,6 +291,7 @@ func (c *checker) run() int {
 	// 2. determinism: the same seeds in two fresh processes give the same log
 	detN := "60"
 	var hashes [2]uint64
+	probeUnconfirmed := false
 	for i := 0; i < 2; i++ {
 		if i == 1 {
 			// a dependency on the wall clock's second would otherwise go unnoticed
@@ -311,10 +312,18 @@ func (c *checker) run() int {
 			// a failure in the determinism sample is handled by the main batch too,
 			// but report it through the normal path right away
 			c.failW = &wr
-			return c.handleFailure(wr.Failure, nil)
+			if rc := c.handleFailure(wr.Failure, nil); rc != 2 {
+				return rc
+			}
+			// not confirmed by a fresh process: never a violation by itself,
+			// but the main batch may find a failing run that does replay
+			fmt.Println("note: the failing run of the determinism sample could not be confirmed; continuing with the main batch")
+			probeUnconfirmed = true
+			c.failW = nil
+			break
 		}
 	}
-	if hashes[0] != hashes[1] {
+	if !probeUnconfirmed && hashes[0] != hashes[1] {
 		return c.fail2("simulator is not deterministic: event-log hash %x vs %x for the same %s seeds", hashes[0], hashes[1], detN)
 	}
 
@@ -421,6 +430,7 @@ func (c *checker) run() int {
 	sigs := map[uint64]struct{}{}
 	shift := uint(0)
 	var failure *kit.Trace
+	var failing []*WorkerResult
 	var samples []*kit.Trace
 	knownHits := map[string]*KnownHit{}
 	extra := map[string]float64{}
@@ -436,9 +446,11 @@ func (c *checker) run() int {
 				knownHits[k].Count += h.Count
 			}
 		}
-		if r.Failure != nil && (failure == nil || r.Failure.Size() < failure.Size()) {
-			failure = r.Failure
-			c.failW = r
+		if r.Failure != nil {
+			failing = append(failing, r)
+			if failure == nil || r.Failure.Size() < failure.Size() {
+				failure = r.Failure
+			}
 		}
 		if r.Arch == "386" {
 			c.n386++
@@ -460,23 +472,45 @@ func (c *checker) run() int {
 		}
 	}
 	if failure != nil {
-		if c.failW != nil && c.failW.Procs > 1 {
-			c.procs = int64(c.failW.Procs)
-			if failure.Config == nil {
-				failure.Config = map[string]int64{}
-			}
-			failure.Config["gomaxprocs"] = c.procs
-		}
-		if c.failW != nil && c.failW.Arch == "386" && c.bin386 != "" {
-			// found on the 32-bit build: replay and minimise there
-			c.bin = c.bin386
-			if failure.Config == nil {
-				failure.Config = map[string]int64{}
-			}
-			failure.Config["goarch_386"] = 1
-		}
+		// Smallest failing run first. A failure that cannot be reproduced in
+		// a fresh process (code under test that starts goroutines of its own,
+		// say) is never reported as a violation; but another worker's failure
+		// of the same batch may well be reproducible, so each is tried before
+		// giving up with a check error.
+		sort.SliceStable(failing, func(i, j int) bool { return failing[i].Failure.Size() < failing[j].Failure.Size() })
 		c.distinctAtFailure = len(sigs)
-		return c.handleFailure(failure, agg)
+		bin0, procs0 := c.bin, c.procs
+		rc := 2
+		for i, r := range failing {
+			c.bin, c.procs = bin0, procs0
+			c.failW = r
+			failure = r.Failure
+			if r.Procs > 1 {
+				c.procs = int64(r.Procs)
+				if failure.Config == nil {
+					failure.Config = map[string]int64{}
+				}
+				failure.Config["gomaxprocs"] = c.procs
+			}
+			if r.Arch == "386" && c.bin386 != "" {
+				// found on the 32-bit build: replay and minimise there
+				c.bin = c.bin386
+				if failure.Config == nil {
+					failure.Config = map[string]int64{}
+				}
+				failure.Config["goarch_386"] = 1
+			}
+			if rc = c.handleFailure(failure, agg); rc != 2 {
+				return rc
+			}
+			if i+1 < len(failing) {
+				fmt.Printf("note: that failing run could not be confirmed; trying the failing run of another worker (%d of %d)\n", i+2, len(failing))
+			}
+		}
+		return rc
+	}
+	if probeUnconfirmed {
+		return c.fail2("a run of the determinism sample failed but could not be confirmed in a fresh process, and the main batch found nothing: not a finding, not a pass")
 	}
 	for _, k := range sortedHitKeys(knownHits) {
 		fmt.Printf("note: known finding %s observed in %d runs of this batch\n", k, knownHits[k].Count)
